@@ -36,6 +36,7 @@ class ClientAuthenticator:
         self.protocol = protocol
         self.unixFDSupport = self._usesUnixSocketTransport(self.protocol)
         self.guid = None
+        self.negotiatingUnixFD = False  # NEGOTIATE_UNIX_FD sent, not answered
         self.cookiedir = None  # used for testing only
 
         self.authOrder = self.preference[:]
@@ -85,6 +86,7 @@ class ClientAuthenticator:
             raise DBusAuthenticationFailed()
 
         self.authMech = self.authOrder.pop()
+        self.negotiatingUnixFD = False
 
         if self.authMech == b'DBUS_COOKIE_SHA1':
             self.sendAuthMessage(
@@ -119,12 +121,13 @@ class ClientAuthenticator:
         else:
             if self.unixFDSupport:
                 self.sendAuthMessage(b'NEGOTIATE_UNIX_FD')
+                self.negotiatingUnixFD = True
             else:
                 self.sendAuthMessage(b'BEGIN')
                 self.authenticated = True
 
     def _auth_AGREE_UNIX_FD(self, line):
-        if self.unixFDSupport:
+        if self.unixFDSupport and self.negotiatingUnixFD:
             self.sendAuthMessage(b'BEGIN')
             self.authenticated = True
         else:
